@@ -489,7 +489,7 @@ class C12(Prop):
             for _ in range(2 if ctx.tier == "quick" else 3):
                 ops += [["stress", g, m, rng.randrange(1, 1 << 30), mx], ["reset"]]
             cases.append(Case("stress%d" % k, "allocstress", [init], ops))
-        cases.append(Case("mixed0", "allocstress", [64], [["mixed", 1500 if ctx.tier == "quick" else 20000, 16]]))
+        cases.append(Case("mixed0", "allocstress", [64], [["mixed", 1500 if ctx.tier == "quick" else 6000, 16]]))
         out = []
         race = ctx.tier == "thorough" and os.path.exists(os.path.join(core.BUILD, "z_race.test"))
         cf = os.path.join(core.BUILD, "cases_C12_stress.txt")
